@@ -476,7 +476,24 @@ func (s *syncer) newOutput() (*RedisOutput, error) {
 			s.logger.Errorf("%s", err.Error())
 			return nil, errors.Join(ErrQuit, err)
 		}
-		err = s.updateCheckpoint(wait, localCheckpoint, []string{id1, id2})
+		ids := []string{id1, id2}
+		if !needsBisyncNamespace && id2 != "" && id2 != id1 {
+			// A resume position stored under the previous replication id must stay under it until
+			// the source has granted its continuation: whether (id2, offset) still lies on the
+			// source's history depends on second_replid_offset, which the source checks when it is
+			// asked "PSYNC id2 offset+1".  Re-keying the position to id1 here turns the request
+			// into "PSYNC id1 offset+1", which is granted for any offset inside the backlog.
+			// RedisInput.syncMeta re-keys the checkpoint (Output.SetRunId) once the source replied.
+			prevId, err := s.checkpointRunId(wait, ids)
+			if err != nil {
+				return nil, errors.Join(ErrRestart, err)
+			}
+			if prevId == id2 {
+				ids = []string{id2, id1}
+				outputCfg.RunId = id2
+			}
+		}
+		err = s.updateCheckpoint(wait, localCheckpoint, ids)
 		if err != nil {
 			return nil, errors.Join(ErrRestart, err)
 		}
@@ -894,6 +911,28 @@ func deleteBisyncKeysInChunks(cli client.Redis, keys []string, chunkSize int) er
 	}
 	flush()
 	return errors.Join(errs...)
+}
+
+// checkpointRunId returns the run id the target's resume position is stored under ("" if none)
+func (s *syncer) checkpointRunId(wait usync.WaitCloser, ids []string) (runId string, err error) {
+	err = util.RetryLinearJitter(wait.Context(), func() error {
+		cli, err := client.NewRedis(s.cfg.Output)
+		if err != nil {
+			return err
+		}
+		defer cli.Close()
+
+		cpName, cpRunId, err := checkpoint.GetCheckpointHash(cli, ids)
+		if err != nil {
+			s.logger.Errorf("get checkpoint hash : redis(%s), ids(%v), error(%v)", s.cfg.Output.Address(), ids, err)
+			return err
+		}
+		if cpName != "" {
+			runId = cpRunId
+		}
+		return nil
+	}, 5, time.Second*1, 0.3)
+	return
 }
 
 func (s *syncer) updateCheckpoint(wait usync.WaitCloser, localCheckpoint string, ids []string) error {
